@@ -6,6 +6,9 @@
 (*  op "file"    e.file (abstract file), e.allow, e.want (keys to decide)  *)
 (*  op "linked"  a file linked into the harness; its abstract file is      *)
 (*               e.out.file (the descriptor proto of the real descriptor)  *)
+(*  op "xlate"   e.file (proto2 / proto3), e.xfile (its editions           *)
+(*               translation), e.tgt (the input message), e.items (string  *)
+(*               occurrences): lock-step runtime behaviour, SchemaXlate    *)
 (*  keys: ok     NewFile's verdict = no definite defect                    *)
 (*        snap   accessor snapshot = Views(file)                           *)
 (*        back   ToFileDescriptorProto(NewFile(p)) = Normal(file)          *)
@@ -18,7 +21,7 @@
 (*  must show Views (canonical defaults) and satisfy the view laws, and a  *)
 (*  rejection of a file without listed defect is not judged.               *)
 (***************************************************************************)
-EXTENDS SchemaValid, SchemaViews
+EXTENDS SchemaXlate
 
 Range(seq) == {seq[i] : i \in 1..Len(seq)}
 
@@ -51,6 +54,7 @@ Expect(e) ==
          IF Defects(f, e.allow) = {} THEN AcceptedExp(f, e.allow, Want(e) \cup {"ok"}) ELSE [ok |-> FALSE]
     [] e.op = "defaults" ->
          [ef |-> EditionDefaults(e.edition), bef |-> EditionDefaults(e.edition)]
+    [] e.op = "xlate" -> XlateExpect(e)
     [] OTHER -> [unknown_op |-> TRUE]
 
 AgreeWith(e, x) == \A k \in DOMAIN x : k \in DOMAIN e.out /\ e.out[k] = x[k]
@@ -83,6 +87,8 @@ Agree(e) ==
                         /\ \A k \in {"snap1", "snap2"} : k \in DOMAIN e.out => ViewLaws(e.out[k])
     [] e.op = "pairschema" -> /\ "panic" \notin DOMAIN e.out
                               /\ Map(e.out.a, LAMBDA m : SemMsg(m, e.strict)) = Map(e.out.b, LAMBDA m : SemMsg(m, e.strict))
+    [] e.op = "xlate" -> /\ "panic" \notin DOMAIN e.out
+                         /\ (XlatePremise(e) => XlateWellFormed(e) /\ XlateAgree(e))
     [] e.op = "pairgen" -> "panic" \notin DOMAIN e.out     \* building a message through reflection must not panic
     [] e.op = "pair" -> /\ "panic" \notin DOMAIN e.out /\ "panic" \notin DOMAIN e.out.a /\ "panic" \notin DOMAIN e.out.b
                         /\ LET a == e.out.a  b == e.out.b IN
